@@ -80,6 +80,7 @@ FAMS_THOROUGH = "table:8000,rv:300,so2:150,so3:150,se2:150,se3:120,css:120"
 SPACE_STAGES = {
     "C03": [("interp:spacing", ["interp"], False, False), ("compound:resolution", ["compound"], False, False)],
     "C05": [("interp:steer", ["interp"], False, False)],
+    "C06": [("compound:resolution", ["compound"], False, False)],
     "C15": [("interp:steer", ["interp"], False, False)],
     "C16": [("interp:steer", ["interp"], False, False)],
     "C18": [("metric:radius-test", ["metric"], False, False), ("compound:resolution", ["compound"], False, False)],
